@@ -17,7 +17,7 @@ sharing between the three objects — the thing under test — survives cloning)
 self-test replays a history from scratch and demands the same canonical state as the pickled path.
 
 Values: every array handed to the library is a fresh copy of a table entry
-1 + vid*32 + row*8 + col + noise/4 (noise in {0,1,2,3} seeded from VERIF_SEED): all entries of all tables are
+5 + vid*32 + row*8 + col + noise/4 (noise in {0,1,2,3} seeded from VERIF_SEED): all entries of all tables are
 distinct and dyadic rationals, the arithmetic operands are 2, 0.5, 3, 2 (+= -= *= /=), so every value
 reachable in <= 8 steps is exact in float64 (|numerator| < 2^40). Comparison is therefore EXACT
 (tolerance 0; worst deviation observed on the unchanged tree over seeds 0,1,2,7,12345: 0; smallest
@@ -61,7 +61,10 @@ NOTE = (
     "vector.py), the event alphabet and the depth bound; float64 cell data only (integer cells, which numpy would truncate "
     "under /=, are outside the alphabet); negative and out-of-range indices, zero-length slices, singleton lists in "
     "assignments and partially-unset Vector-valued sources are outside the alphabet (the library may reject them); whether "
-    "copy() carries metadata over is not pinned (empty or equal-by-value are both accepted, sharing is not)."
+    "copy() carries metadata over is not pinned (empty or equal-by-value are both accepted, sharing is not). Seams: only the "
+    "public API; cells are read through the public `data` property on the hot path (fallback v[int index], which is itself "
+    "compared with the model for every cell in every expanded state); live states are cloned with pickle, cross-checked "
+    "against a replay from scratch by the self-test."
 )
 RULE = (
     "BFS with canonical-state dedup (shape, fields, units, cell bytes, metadata of main/copy/independent Vector plus the "
@@ -71,7 +74,7 @@ RULE = (
     "slicing and get_data: full Cartesian product incl. partial indices in the initial states and, in thorough, in all "
     "depth-1 states; a one-axis-at-a-time set of 10-30 expressions in deeper states; one mixed expression in states of "
     "the last level; flatten, field flatten and the flatten/set_flattened round trip everywhere). thorough adds all "
-    "length-8 histories that deviate from two default histories in <= 2 positions. A transition is non-trivial when it "
+    "length-8 histories that deviate from a varied default history in <= 2 positions (and from a repeated += in <= 2 / <= 1). A transition is non-trivial when it "
     "reaches a canonical state not seen before; distinct outcomes = distinct canonical states over all shards."
 )
 
@@ -100,7 +103,8 @@ def tables(seed):
         vid = np.arange(NVID)[:, None, None] * 32.0
         r = np.arange(3)[None, :, None] * 8.0
         c = np.arange(8)[None, None, :] * 1.0
-        T = 1.0 + vid + r + c + rng.integers(0, 4, size=(NVID, 3, 8)) / 4.0  # never 0: *= and /= have no fixed point
+        # offset 5: no table entry is a fixed point of an operation (0 for *= /=) or makes two operations coincide (1: x*3 == x+2)
+        T = 5.0 + vid + r + c + rng.integers(0, 4, size=(NVID, 3, 8)) / 4.0
         F = 4096.0 + np.arange(4)[:, None] * 64.0 + np.arange(40)[None, :] + rng.integers(0, 4, size=(4, 40)) / 4.0
         _TABLES[seed] = (T, F)
     return _TABLES[seed]
@@ -1190,11 +1194,14 @@ def shard_b(item, depth=3, seed=0):
 
 
 # ----------------------------------------------------------------------------- deviation-bounded histories
-def default_histories(shape):
-    nd = len(shape)
+def default_histories(spec):
+    """(default history, max deviations): a varied 8-step session with <= 2 deviations for every deep initial state;
+    the simplest state-changing operation repeated 8 times with <= 2 deviations where the initial cells are populated
+    (from_data), <= 1 elsewhere (on an empty Vector the repeated operation is a no-op until a deviation fills a cell)."""
+    nd = len(shape_of(spec))
     rep = [("arith", "add", "f0")] * 8
     varied = [("set", "first", 3), ("asg_slice", nd - 1), ("add", "g"), ("arith", "mul", "flast"), ("copy",), ("setflat", "f0"), ("rm", "first"), ("c_arith",)]
-    return [rep, varied]
+    return [(varied, 2), (rep, 2 if spec[0] == "data" else 1)]
 
 
 def dev_chunk(item, seed=0):
@@ -1329,18 +1336,18 @@ def run(ctx):
             shape = shape_of(spec)
             EV = events_for(shape)
             index = {e: i for i, e in enumerate(EV)}
-            for di, default in enumerate(default_histories(shape)):
+            for di, (default, b) in enumerate(default_histories(spec)):
                 dflt = [index[e] for e in default]
-                hs = [tuple(h) for _, h in deviation_histories(dflt, list(range(len(EV))), 2)]
+                hs = [tuple(h) for _, h in deviation_histories(dflt, list(range(len(EV))), b)]
                 nh += len(hs)
                 for i in range(0, len(hs), 400):
                     dev_items.append((ii, di, hs[i : i + 400]))
-        ctx.say(f"thorough: {nh} deviation-bounded histories of length 8 (<= 2 deviations from 2 defaults, {len(DEEP_INITS)} initial states)")
+        ctx.say(f"thorough: {nh} deviation-bounded histories of length 8 (<= 2 deviations from a varied default, <= 1 or 2 from a repeated one, {len(DEEP_INITS)} initial states)")
         m3 = ctx.pmap(dev_chunk, dev_items, chunk=1, label="deviations", seed=seed)
         all_states += [np.frombuffer(b, dtype=np.uint64) for b in m3.outcomes if isinstance(b, bytes)]
         transitions += int(m3.extra["transitions"])
         bounds["deviation_history_length"] = 8
-        bounds["deviation_max_positions"] = 2
+        bounds["deviation_max_positions"] = {"varied_default": 2, "repeated_default": "2 from from_data, 1 from from_shape"}
         bounds["deviation_histories"] = nh
     ex = ctx.tally.extra
     maxd = max([int(k.rsplit("_", 1)[1]) for k, v in ex.items() if k.startswith("reached_depth_") and v > 0] or [0])
